@@ -58,6 +58,7 @@ var catalogue = []catEntry{
 	{"tkt-flip", nil}, {"tkt-trunc", nil}, {"tkt-extend", nil}, {"tkt-forged-plain-appended", nil}, {"tkt-extra-optionals", nil},
 	{"auth-flip", nil}, {"auth-trunc", nil}, {"auth-extend", nil},
 	{"cname-mismatch", nil}, {"cname-extra-component", nil}, {"cname-fewer-components", nil}, {"cname-empty", nil}, {"crealm-mismatch", nil},
+	{"sname-label-krbtgt", nil},
 	{"pac-flipped", nil}, {"pac-wrongkey", nil}, {"pac-sigflipped", nil}, {"pac-truncated", nil}, {"pac-nosig", nil}, {"pac-noinfo", nil},
 }
 
@@ -324,6 +325,12 @@ func Gen(caseID, tier string) (json.RawMessage, error) {
 			if tp.Settings.KtPrinc != "" && r.Chance(1, 3) {
 				// with a keytab principal override the key-selection labels matter in other ways
 				c = catalogue[r.Intn(5)] // wrong-key, wrong-kvno-label, wrong-etype-label, wrong-realm-label, wrong-sname-label
+			}
+			if tp.Settings.KtPrinc != "" && nd == 2 && len(p.Spec.Defects) == 0 && r.Chance(1, 8) {
+				// a pair whose members meet in one decision: the clear-text name says "ticket-granting
+				// service" and the authenticator is sealed the way one for the TGS is
+				p.Spec.Defects = append(p.Spec.Defects, world.Defect{Kind: "sname-label-krbtgt"}, world.Defect{Kind: "auth-usage-7"})
+				break
 			}
 			isTime := len(c.args) > 0 && strings.HasPrefix(c.kind, "t-")
 			if isTime && timeUsed {
